@@ -210,6 +210,11 @@ inductive Entry where
   | inj (name ip content : Bytes)
 deriving DecidableEq, Repr
 
+/-- what an entry means to protoc: a generated file is its content followed by its appends -/
+def Entry.flat : Entry → Entry
+  | .file n c apps => .file n (c ++ apps.flatten) []
+  | e => e
+
 /-- protoc's reading: a nameless chunk continues the preceding entry (`acc` newest first) -/
 def interp : List RF → List Entry → Option (List Entry)
   | [], acc => some acc.reverse
@@ -355,10 +360,18 @@ def judgeC10 (i : In) (o : Obs) : Option String :=
     else match interp o.files [] with
       | none => some "response: a nameless chunk continues nothing or an injection (an injection absorbed an append)"
       | some es =>
-        if es != m.entries then some "response: read under protoc's rules it does not mean what the artifacts said"
+        if es.map Entry.flat != m.entries.map Entry.flat then some "response: read under protoc's rules it does not mean what the artifacts said"
         else if o.error != m.error then some "response: error artifacts not joined in order with '; '"
         else if o.features != i.features then some "response: supported-features value did not pass through"
         else none
+
+/-- what C10 / C11 speak about: failure and its cause, or the response as protoc reads it -/
+def projC10 (o : Obs) : Bool × String × Option (List Entry) × Option Bytes × Option Nat :=
+  (o.died, o.cause, (interp o.files []).map (·.map Entry.flat), o.error, o.features)
+
+/-- C12 adds the final state of the probed paths -/
+def projC12 (o : Obs) : (Bool × String × Option (List Entry) × Option Bytes × Option Nat) × List Probe :=
+  (projC10 o, o.probes)
 
 def pathsOf (i : In) : List Bytes :=
   i.fs0.map (fun e => norm e.path) ++ i.arts.filterMap (fun a => match a with | .custom n .. => some (norm n) | _ => none)
@@ -379,7 +392,7 @@ def judgeC12 (i : In) (o : Obs) : Option String :=
   | .error _ => if o.died then none else some "failure: a run that must fail left a response"
   | .ok m =>
     if o.died then some "failure: a legal run failed"
-    else if interp o.files [] != some m.entries then some "response: custom artifacts must not change the response"
+    else if (interp o.files []).map (·.map Entry.flat) != some (m.entries.map Entry.flat) then some "response: custom artifacts must not change the response"
     else if o.probes.length != i.probes.length then some "harness: wrong number of probes"
     else
       let bad := (i.probes.zip o.probes).find? fun (p, pr) =>
